@@ -1,5 +1,6 @@
 #include "cap.hpp"
 #include <new>
+#include <cstring>
 Counters counters = {0, 0, 0, 0, 0, 0, 0};
 static Obj *pool[4] = {0, 0, 0, 0};
 static int libarr[8] = {10, 11, 12, 13, 14, 15, 16, 17};
@@ -31,3 +32,9 @@ void release_obj(Obj *p) {
   for (int i = 0; i < 64; ++i) if (slots[i] == p && used[i]) { used[i] = false; --counters.pool_in_use; p->magic = 0; return; }
   std::abort();     // not a slot in use: a wrong or repeated release
 }
+int g_room = 0;
+void append_suffix(char *s) { static const char suf[] = "_0123456789abcdefghij"; size_t n = std::strlen(s); int k = g_room < 20 ? g_room : 20; if (k < 0) k = 0; std::memcpy(s + n, suf, k); s[n + k] = 0; }
+int count_tags(char **tags) { int t = 0; for (int i = 0; i < g_room; ++i) t += (int)std::strlen(tags[i]); return t; }   // g_room: number of elements (the array carries no terminator)
+void upcase(std::string &s) { for (size_t i = 0; i < s.size(); ++i) if (s[i] >= 'a' && s[i] <= 'z') s[i] -= 32; s += "!"; }
+void fill_name(char *s) { std::strcpy(s, "nineteen-characters"); }
+int sumvec(const std::vector<int> &v) { int t = 0; for (size_t i = 0; i < v.size(); ++i) t += v[i]; return t; }
